@@ -104,6 +104,7 @@ func runScenario(sc Scenario, out *bufio.Writer, tmp string) (bool, error) {
 	for _, f := range s.fds {
 		f.Close()
 	}
+	sim.SimHoldReset()
 	if s.W != nil {
 		done := make(chan struct{})
 		go func() { s.W.Close(); close(done) }()
@@ -228,6 +229,21 @@ func (s *scen) exec(st *Step) {
 		s.stepDrain(st)
 	case "obs":
 		s.stepObs(st)
+	case "hold": // the reader is not woken up until the hold is released (operations pile up: a forced schedule)
+		if st.On {
+			sim.SimHold()
+		} else {
+			sim.SimRelease()
+		}
+		s.emit(J{"k": "hold", "on": st.On})
+	case "kmodel": // the bounded model's prediction for the observation just made (judged by the trace specification)
+		if st.Model != nil {
+			wl := st.Model.WL
+			if wl == nil {
+				wl = []string{}
+			}
+			s.emit(J{"k": "kmodel", "nfd": st.Model.NFd, "npath": st.Model.NPath, "nbyuser": st.Model.NByUser, "nseen": st.Model.NSeen, "wl": wl})
+		}
 	case "kfault": // fault injection: the n-th registration of a new knote fails (kevent: ENOMEM)
 		sim.SimFailAdd(st.N)
 		s.emit(J{"k": "kfault", "n": st.N})
